@@ -52,6 +52,7 @@ type c18Result struct {
 	Value  string // canonical rendering
 	Err    string
 	Both   string // non-empty: a usable value was returned together with an error
+	Incons string // non-empty: the entry point disagrees with its sibling on the same text
 	Panic  string
 	Budget bool
 	HitEIO bool
@@ -65,7 +66,7 @@ func asReader(rd *simio.Reader) io.Reader {
 	return rd
 }
 
-var c18Entries = []string{"version.Parse", "dependency.Parse", "dependency.ParseArch", "dependency.ParseArchitectures",
+var c18Entries = []string{"version.Parse", "version.UnmarshalText", "dependency.Parse", "dependency.ParseArch", "dependency.ParseArchitectures",
 	"ParagraphReader.All", "Unmarshal:DSC", "Unmarshal:Changes", "Unmarshal:SourceParagraph", "Unmarshal:BinaryParagraph", "Unmarshal:[]BinaryIndex", "Unmarshal:[]SourceIndex",
 	"ParseDsc", "ParseChanges", "ParseControl", "ParseBinaryIndex", "ParseSourceIndex", "changelog.Parse"}
 
@@ -96,15 +97,42 @@ func usable(v interface{}) string {
 	return ""
 }
 
+// c18BufSize > 0: the caller's bufio.Reader (for the entry points that take
+// one) or the reader handed in (for those that take an io.Reader) has this size
+// instead of bufio's default.
+var c18BufSize int
+
+func c18Bufio(rd io.Reader) *bufio.Reader {
+	if c18BufSize > 0 {
+		return bufio.NewReaderSize(rd, c18BufSize)
+	}
+	return bufio.NewReader(rd)
+}
+
 // c18Invoke performs one call.  rd is the stream for stream entry points.
 func c18Invoke(entry string, input []byte, rd io.Reader) (res c18Result) {
 	var val interface{}
 	var err error
 	checkBoth := true
+	if c18BufSize > 0 && rd != nil {
+		rd = bufio.NewReaderSize(rd, c18BufSize)
+	}
 	switch entry {
 	case "version.Parse":
 		v, e := version.Parse(string(input))
 		val, err, checkBoth = v, e, false
+	case "version.UnmarshalText":
+		// the []byte entry point; the caller re-uses its buffer once the call has returned
+		buf := append([]byte(nil), input...)
+		var v version.Version
+		e := v.UnmarshalText(buf)
+		for i := range buf {
+			buf[i] = 'X'
+		}
+		val, err, checkBoth = v, e, false
+		if ref, e2 := version.Parse(string(input)); (e == nil) != (e2 == nil) || (e == nil && canon(v) != canon(ref)) {
+			res.Incons = fmt.Sprintf("UnmarshalText gives %s (err=%v) once the caller has re-used its buffer, Parse of the same text gives %s (err=%v)", canon(v), e, canon(ref), e2)
+		}
 	case "dependency.Parse":
 		val, err = dependency.Parse(string(input))
 	case "dependency.ParseArch":
@@ -144,15 +172,15 @@ func c18Invoke(entry string, input []byte, rd io.Reader) (res c18Result) {
 		err = control.Unmarshal(&x, rd)
 		val, checkBoth = x, false
 	case "ParseDsc":
-		val, err = control.ParseDsc(bufio.NewReader(rd), "/x/y.dsc")
+		val, err = control.ParseDsc(c18Bufio(rd), "/x/y.dsc")
 	case "ParseChanges":
-		val, err = control.ParseChanges(bufio.NewReader(rd), "/x/y.changes")
+		val, err = control.ParseChanges(c18Bufio(rd), "/x/y.changes")
 	case "ParseControl":
-		val, err = control.ParseControl(bufio.NewReader(rd), "/x/debian/control")
+		val, err = control.ParseControl(c18Bufio(rd), "/x/debian/control")
 	case "ParseBinaryIndex":
-		val, err = control.ParseBinaryIndex(bufio.NewReader(rd))
+		val, err = control.ParseBinaryIndex(c18Bufio(rd))
 	case "ParseSourceIndex":
-		val, err = control.ParseSourceIndex(bufio.NewReader(rd))
+		val, err = control.ParseSourceIndex(c18Bufio(rd))
 	case "changelog.Parse":
 		val, err = changelog.Parse(rd)
 	default:
@@ -207,7 +235,7 @@ func (c *chunkReader) Read(p []byte) (int, error) {
 
 func c18Seed(t *rt.Tape, r *rt.Run, entry string) []byte {
 	switch {
-	case entry == "version.Parse":
+	case strings.HasPrefix(entry, "version."):
 		return []byte(genVersion(t, "c18.ver").Text)
 	case entry == "dependency.Parse":
 		return []byte(genDep(t, depOpts{Substvars: true, Stages: true, MaxRels: 4}, "c18.dep").render(t.Bool(1, 2, "c18.fold")))
@@ -475,6 +503,19 @@ func runC18(r *rt.Run, tier string) {
 				r.Probe("same-bytes-other-delivery")
 			}
 		}
+		if isStream(c.Entry) && c.FailAt < 0 && c.OnceAt < 0 && t.Bool(1, 3, "c18.altbuf") {
+			// ... nor on the size of the buffered reader it is read through
+			c18BufSize = []int{65536, 16384, 5000}[t.Draw(3, "c18.altbufsize")]
+			other := c18Solo(r, c, fmt.Sprintf("altbuf%d", i))
+			c18BufSize = 0
+			if other.Value != solo[i].Value || other.Err != solo[i].Err {
+				r.Violate("C18/result-depends-on-buffer-size", key, "the same %d bytes read through bufio's default buffer: value=%s err=%q; through a larger buffer: value=%s err=%q", len(c.Input), clip(solo[i].Value, 200), solo[i].Err, clip(other.Value, 200), other.Err)
+			}
+			r.Probe("same-bytes-other-buffer-size")
+		}
+		if solo[i].Incons != "" {
+			r.Violate("C18/result-depends-on-callers-buffer", key, "%s", solo[i].Incons)
+		}
 		if c.FailAt < 0 && c.OnceAt < 0 && t.Bool(1, 4, "c18.altzone") {
 			// the outcome depends only on the input - not on the process time zone
 			saved := time.Local
@@ -614,5 +655,5 @@ func init() {
 		},
 		Assumptions: []string{"inputs are grammar-derived seeds under tape-driven mutation and raw bytes; coverage-guided fuzzing (named in the quantifier) is a different technique", "value-typed results (version.Version, structs filled through Unmarshal) are exempt from the value-or-error clause: the value always exists", "results are compared through their JSON rendering"},
 	})
-	propProbes["C18"] = []string{"read-error-that-calls-itself-temporary", "transient-read-fault", "same-input-other-process-time-zone", "same-bytes-other-delivery", "call-succeeded", "call-returned-error", "calls-interleaved-inside-parsers"}
+	propProbes["C18"] = []string{"same-bytes-other-buffer-size", "read-error-that-calls-itself-temporary", "transient-read-fault", "same-input-other-process-time-zone", "same-bytes-other-delivery", "call-succeeded", "call-returned-error", "calls-interleaved-inside-parsers"}
 }
